@@ -22,6 +22,7 @@ RULE = (
     "invalid requests (foreign module, no referent, the same symbol twice, control flow into data). Per case the "
     "module after apply() against the Lean model (expressions with symbol, addend, attributes; CFI; symbolForwarding; "
     "the edge set), and the output CFG against the flat-CFG specification"
+    "; transfers through memory ('call *A(%rip)', 'jmp *A(%rip)') with data words, code labels and externals as A; a refusal 'control flow into a data block' is judged against the edges that would really move; retargeting combined with delete_symbol of the old symbol"
 )
 ASSUMPTIONS = [
     "how an operand is used (control flow / code reference / data) and which block holds it are determined by the harness with capstone and the block geometry and handed to the model",
